@@ -290,6 +290,53 @@ def analyzeArg : AggArg → AnalyzedArg
 def selectFindsColumn (a : AggArg) : Bool :=
   decide ((analyzeArg a).registered = (analyzeArg a).callerHolds)
 
+/-! ### the repaired variants
+
+  Three functions of the current code depart from the specification (Props/C17.lean).  Their repaired
+  counterparts are modelled next to them and proved equal to the specification in full, and the driver
+  selects by `repoState` — after a fix lands in /repo, flip the corresponding field (one line) and the
+  correspondence stream keeps checking the code that exists. -/
+
+structure CodeState where
+  lastValueMirrorsFrame : Bool      -- LAST_VALUE computes its frames on the reversed partition (pre-finding F14)
+  nthValueLeaksLastVisited : Bool   -- NTH_VALUE returns the last visited cell when the frame is too short
+  invertedFramePanics : Bool        -- windowValues' makeslice panics when High < Low - 1
+
+/-- the state of /repo this model describes -/
+def repoState : CodeState := { lastValueMirrorsFrame := true, nthValueLeaksLastVisited := true, invertedFramePanics := true }
+
+/-- LAST_VALUE repaired: the frames of the partition as it stands, each scanned from its end -/
+def lastValueFixed (cells : Nat → Val) (ign : Bool) (w : Window) (p : List Nat) : List (Nat × Val) :=
+  (windowFrameSet p w).flatMap fun f =>
+    f.records.map fun idx => (idx, scanNth cells ign 1 (frameRecords p f.low f.high).reverse .null 0)
+
+/-- setNthValue's loop repaired: NULL unless the n-th counted cell is reached -/
+def scanNthFixed (cells : Nat → Val) (ign : Bool) (n : Nat) : List Nat → Nat → Val
+  | [], _ => .null
+  | r :: rest, count =>
+    if ign && isNullV (cells r) then scanNthFixed cells ign n rest count
+    else if count + 1 = n then cells r
+    else scanNthFixed cells ign n rest (count + 1)
+
+def nthValueFixed (cells : Nat → Val) (ign : Bool) (n : Int) (w : Window) (p : List Nat) : Option (List (Nat × Val)) :=
+  if n < 1 then none
+  else some ((windowFrameSet p w).flatMap fun f =>
+    f.records.map fun idx => (idx, scanNthFixed cells ign n.toNat (frameRecords p f.low f.high) 0))
+
+/-- the aggregate branch repaired: an inverted frame is an empty frame -/
+def aggOverFixed {β : Type} (cells : Nat → Val) (agg : Nat → List Val → β) (w : Window) (p : List Nat) : Option (List (Nat × β)) :=
+  some ((windowFrameSet p w).flatMap fun f =>
+    f.records.map fun idx => (idx, agg idx ((frameRecords p f.low f.high).map cells)))
+
+def lastValueAt (st : CodeState) (cells : Nat → Val) (ign : Bool) (w : Window) (p : List Nat) : List (Nat × Val) :=
+  if st.lastValueMirrorsFrame then lastValue cells ign w p else lastValueFixed cells ign w p
+
+def nthValueAt (st : CodeState) (cells : Nat → Val) (ign : Bool) (n : Int) (w : Window) (p : List Nat) : Option (List (Nat × Val)) :=
+  if st.nthValueLeaksLastVisited then nthValue cells ign n w p else nthValueFixed cells ign n w p
+
+def aggOverAt {β : Type} (st : CodeState) (cells : Nat → Val) (agg : Nat → List Val → β) (w : Window) (p : List Nat) : Option (List (Nat × β)) :=
+  if st.invertedFramePanics then aggOver cells agg w p else aggOverFixed cells agg w p
+
 /-! ### Analyze: all partitions, result column -/
 
 def assoc {β : Type} (i : Nat) : List (Nat × β) → Option β
